@@ -11,6 +11,11 @@
           texts must be identical.
   TRACE   (code -> spec) seeded random field lists (1-4 fields) and inputs (0-4 items) are run on the four parsers;
           TLC validates the recorded outcomes against Trace_Groups.
+  X       (round 4, GroupsX.tla / MC_GroupsX / Trace_GroupsX, driver c07x.py) the same two directions for TYPED values
+          (value and type fixed by the spec), defaults given for the whole group (default instance / dict / set_defaults,
+          None stays None), required members (subclass-typed, two levels deep), fields named like Namespace methods
+          whose type needs conversion given as one nested mapping (--g={...}, --g file.json), get_defaults, and
+          dump + re-parse.
 """
 from __future__ import annotations
 
@@ -20,6 +25,7 @@ import sys
 import warnings
 
 from ..lib import common, pipeline, tlc
+from . import c07x
 from ..lib.evidence import Report, machinery_failure
 
 PID = "C07"
@@ -262,6 +268,7 @@ def main(argv):
     rep = Report(PID, tier)
     rnd = common.rng(PID)
     rep.assumptions = [
+        "GroupsX: group defaults are given already of the field's type (8.0 for a float field); 'None' group defaults only for Optional fields; the nested group h always contains the required h.x",
         "the four styles declare the fields in the same order (fields without default first); the class style uses the literal [7] as the signature default of a list field",
         "ill-typed values are only generated for non-str fields (every text is a valid str on the command line)",
         "on channels other than the command line the items of one input address disjoint fields (only argv orders its items)",
@@ -340,11 +347,13 @@ def main(argv):
         rep.sample({"random_fields": rcases[0]["fields"], "channel": rcases[0]["chan"], "items": rcases[0]["items"], "payload": rres[0]["payload"]})
     finally:
         common.rm(tmp)
-    rep.evaluations = nparse + rep.extra["random_parses"]
+    # round 4: typed values, group defaults, required members, method-named fields (GroupsX.tla; driver in c07x.py)
+    xparses, xexpl = c07x.phase_x(rep, tier, common.rng(PID + ":x"), PID)
+    rep.evaluations = nparse + rep.extra["random_parses"] + xparses
     rep.rule = ("cases = (field list, channel, items) triples, each run on the four declaration styles; non-trivial & distinct = distinct triples with at least one item")
     rep.exhaustive = tier == "quick"
     rep.explanation = (f"{len(cases)} cases of MC_Groups_{tier} ({'all' if stride == 1 else 'every 3rd'}) x 4 styles ({nparse} parses) compared with the one outcome TLC computed, dumps re-read and compared across styles; "
-                       f"{len(rcases)} random cases validated by TLC against Trace_Groups")
+                       f"{len(rcases)} random cases validated by TLC against Trace_Groups; " + xexpl)
     return rep.finish()
 
 
